@@ -32,6 +32,10 @@ RULE = ("per derived struct with reader and writer: random well-typed field assi
         "(Encoding/Differences, BaseEncoding, Rectangle, Matrix, Date, Dest, Action, name and number trees, ColorSpace, "
         "CidToGidMap, Font variants, stream dictionaries, leaf types and wrappers) with boundary values of each field, judged "
         "two-sidedly against the written form the standard defines (tools/oracle/typed_hand.py); "
+        "typed_fresh (no model): for every derived struct with a catch-all field (Page, PostScriptDict, ImageDict, FormDict, SeedValue-, "
+        "Signature-, SignatureReferenceDictionary, Annot, FieldDictionary, CIDFont) the value read from a random well-typed dictionary with its "
+        "catch-all field emptied (= a value built in code): the written dictionary must carry the schema's /Type and Key=\"Value\" check "
+        "pairs (/Subtype /Image, /Form, /PS), only declared entries, read back and write identically; "
         "judged against the property text (second write identical, every input entry preserved up to the stated equivalences) "
         "and against the extracted Coq interpreter; non-trivial = dictionary with at least one entry; distinct by input line")
 
@@ -598,6 +602,62 @@ def struct_cases(rng, sidx, n_random, tier):
         yield Case("typed_roundtrip", fields_line(name, d, G.objs), model=c.model, tags=["struct:" + name, "mutant"], kind="malformed")
 
 
+# values built in code (the builder / importer: `..Default::default()`), not read from a file: the catch-all field is empty, so every
+# entry of the written dictionary comes from the writer itself.  The derived types whose catch-all field the harness can empty:
+FRESH_TYPES = ["Page", "PostScriptDict", "ImageDict", "FormDict", "SeedValueDictionary", "SignatureDictionary", "SignatureReferenceDictionary",
+               "Annot", "FieldDictionary", "CIDFont"]
+
+
+def check_fresh(sidx, d, objs_in):
+    """mode typed_fresh: read d, empty the catch-all field, write (w1), read w1 back, write again (w2).  From the property text and the
+    schema's own statement of its form: w1 carries the schema's /Type (unless optional; then it is that name if present) and every
+    `Key = "Value"` check pair, it reads back as the same type, the second write is identical, every entry of a declared field
+    is preserved and nothing else appears (the unknown entries went with the catch-all field)."""
+    s = S().structs[sidx]
+    attrs = {k: v for k, v in s["attrs"].items() if k not in ("is_stream", "key") and isinstance(v, str)}
+    known = {f["key"] for f in s["fields"] if not f["flags"] & 5} | set(attrs)
+    d_known = {k: v for k, v in d.items() if k in known}
+    rest = check_struct(sidx, d_known, objs_in)
+
+    def chk(r):
+        if r[0] != "OK":
+            return "%s %s" % (r[0], r[1])
+        f = r[1]
+        if f[0] != b"ok":
+            return "well-typed dictionary rejected: " + f[0].decode("latin-1")
+        if len(f) < 3:
+            return "value built from typed fields only cannot be written: " + f[1].decode("latin-1")
+        w1 = T.uncanon(f[1])
+        for k, v in attrs.items():
+            want = Name(v.rstrip("?"))
+            if k == "Type" and v.endswith("?") and k not in w1:
+                continue
+            if k not in w1:
+                why = "the dictionary written for a %s value whose catch-all field is empty lacks the entry /%s /%s its schema states" % (s["name"], k, v.rstrip("?"))
+                if len(f) > 3 and f[3] != b"ok":
+                    why += "; it cannot be read back as %s: %s" % (s["name"], f[3].decode("latin-1"))
+                return why
+            if canon(w1[k]) != canon(want):
+                return "entry /%s of the written %s is %r, its schema states /%s" % (k, s["name"], w1[k], v.rstrip("?"))
+        for k in w1:
+            if k not in known:
+                return "entry /%s written although the catch-all field was emptied" % k
+        return rest(r)
+    return chk
+
+
+def fresh_cases(rng, tier):
+    n = 12 if tier == "quick" else 200
+    for i, s in enumerate(S().structs):
+        if s["name"] not in FRESH_TYPES or not (s["read"] and s["write"]):
+            continue
+        for j in range(n):
+            G = T.Gen(S(), rng)
+            d = G.struct(i, extras=(j % 2 == 0))
+            yield Case("typed_fresh", fields_line(s["name"], d, G.objs), check=check_fresh(i, d, list(G.objs)), model=False,
+                       tags=["struct:" + s["name"], "fresh"] + (["check-attrs"] if len([k for k in s["attrs"] if k not in ("Type", "is_stream", "key")]) else []))
+
+
 def generate(rng, tier):
     _COV.clear()
     _FORM_ONLY.clear()
@@ -607,6 +667,7 @@ def generate(rng, tier):
         if not (s["read"] and s["write"]):
             continue
         yield from struct_cases(rng, i, n, tier)
+    yield from fresh_cases(rng, tier)
     yield from container_cases(rng, tier)
     yield from stream_cases(rng, tier)
     yield from font_cases(rng, tier)
